@@ -27,9 +27,12 @@ ASSUMPTIONS = [
     "the same map with the dense, the sparse and the specification-level container on EVERY history (C13_container_irrelevant, C13_containers_refine_map)",
     "that Model/ExprMeta.v is what meta.rs does is tied by the containers stream on the real types (all of them are public; no hook needed; the word "
     "vector of DenseExprSet and the members of SparseExprSet are read from their derived Debug text)",
-    "NOT proved: that the ExprRef-keyed driver of SimplifyCacheRefs.v (interning table, reference comparison) and the tree-keyed driver of SimplifyCache.v "
-    "agree - this is the canonicity of interning (C12); it is evaluated on one history in Props/C13.v and, in the tie, the tree-keyed model is what the real "
-    "dense and sparse instances are compared with (results and every cache entry). The u32 range of ExprRef and allocation failure are outside the model",
+    "the ExprRef-keyed driver over a container (SimplifyCacheRefs.v: interning table, reference comparison, get_fixed_point of meta.rs) is PROVED to "
+    "simulate the tree-keyed driver of SimplifyCache.v (C13_refs_driver_refines_tree_driver, C13_refs_call_refines_tree_call: interning is injective and "
+    "stable, relation cache_rel preserved through chase / compress / visit / every step of the work-stack loop / every call), so termination, cache "
+    "transparency and completeness transfer: C13_container_driver_total. The interning table here is append-on-first-sight; that the real Context "
+    "numbers expressions injectively and stably is C12. The fuel of the model's get_fixed_point (stored slots + 2) is PROVED sufficient whenever the loops "
+    "terminate (C13_get_fixed_point_fuel_suffices). The u32 range of ExprRef and allocation failure are outside the model",
 ]
 MANIFEST = dict(
     level_text=("Theorems in Coq: C13_simplifier_total (the whole property for the memoising driver model: for every well-typed expression without a product "
@@ -43,10 +46,13 @@ MANIFEST = dict(
                 "empty, store, read through index_mut, iter, into_vec, non_default_value_keys), C13_dense_set_refines, C13_sparse_set_refines (one set, incl. the "
                 "returned booleans; shifts and masks on 64-bit words), C13_get_fixed_point_container_irrelevant, C13_get_fixed_point_fuel_monotone, "
                 "C13_container_irrelevant / C13_container_irrelevant_from / C13_containers_refine_map (the memoising driver over the container interface returns the same "
-                "results and leaves the same map with the dense, the sparse and the specification-level container, on every history). "
+                "results and leaves the same map with the dense, the sparse and the specification-level container, on every history), "
+                "C13_refs_driver_refines_tree_driver / C13_refs_call_refines_tree_call (the container-level, ExprRef-keyed driver returns exactly what the tree-keyed "
+                "driver model returns and holds the same cache entries, on every history), C13_container_driver_total (C13_simplifier_total for an instance over any "
+                "lawful container: ONE result after any history), C13_get_fixed_point_fuel_suffices. "
                 "Tie: results AND final cache contents of real sparse/dense Simplifier instances against the extracted driver model; operation histories on the real "
                 "containers of meta.rs against the extracted container model (every returned value, final raw contents)."),
-    level_note="Full for the models (termination, idempotence, cache transparency, completeness, container irrelevance); the agreement of the reference-keyed and the tree-keyed driver model (canonicity of interning, C12) and run time are outside the theorems.",
+    level_note="Full for the models, one chain of theorems from the rules to the driver over either cache container (termination, idempotence, cache transparency, completeness, container irrelevance); the real Context's numbering (C12) and run time are outside these theorems.",
     category="proof",
 )
 
